@@ -22,6 +22,7 @@
 #include <string>
 #include <thread>
 #include <unistd.h>
+#include <unordered_map>
 #include <vector>
 
 #include "verif_hook.h"
@@ -93,6 +94,15 @@ public:
     std::vector<std::pair<std::uint64_t, int>> script;
     bool use_script{false};
     int script_first{0};
+    // script variant: the entry {k, thread} with script_conflict_from <= its index fires at the k-th conflicting access counted from the
+    // previous scripted switch (a conflicting access = the running thread is about to touch a word another thread wrote, or to write
+    // a word another thread read, earlier in this run) instead of at a global step
+    std::size_t script_conflict_from{~std::size_t{0}};
+    std::uint64_t conflicts_since_switch{0}; // out: conflicting accesses seen after the last scripted switch (enumeration bound)
+    // conflict-directed overlay on the byte policies: at a conflicting access preempt with probability 1/4 in favour of a thread that
+    // touched the word (races on one word need two preemptions a few steps apart, which uniform policies rarely produce)
+    bool conflict_bias{false};
+    std::uint64_t conflict_points{0}; // statistics of the last run
     // C09: a case that does not finish within the step budget under the fair continuation is a violation, not an inconclusive run
     bool fatal_on_step_limit{false};
     std::uint64_t fairness_quantum{4000}; // a thread that ran this many consecutive steps hands over (round robin) if someone else can run
@@ -115,6 +125,9 @@ public:
         bytes_ = sched_bytes;
         steps = switches = preemptions = spin_blocks = 0;
         writes_performed_ = 0;
+        acc_.clear();
+        conflict_points = 0;
+        conflicts_since_switch = 0;
         outcome = Outcome::Ok;
         released_.store(false);
         g_unscheduled_spins.store(0);
@@ -204,6 +217,24 @@ public:
         }
         bool must_switch = false;
         ++run_len_;
+        bool conflict = false;
+        LThread* conflict_with = nullptr;
+        if (addr != nullptr && access != yv::Y_SLEEP && (conflict_bias || use_script)) {
+            Acc& e = acc_[addr];
+            const std::uint8_t me = static_cast<std::uint8_t>(1U << static_cast<unsigned>(self->background ? 4 + (self->bg_kind & 3) : (self->id & 3)));
+            const bool is_write = access == yv::Y_STORE || access == yv::Y_CAS;
+            const std::uint8_t hit = static_cast<std::uint8_t>((e.w & ~me) | (is_write ? (e.r & ~me) : 0));
+            conflict = hit != 0;
+            if (conflict) {
+                ++conflict_points;
+                ++conflicts_since_switch;
+                for (auto* l : all_threads()) {
+                    const std::uint8_t bit = static_cast<std::uint8_t>(1U << static_cast<unsigned>(l->background ? 4 + (l->bg_kind & 3) : (l->id & 3)));
+                    if ((hit & bit) != 0 && l != self) { conflict_with = l; }
+                }
+            }
+            if (is_write) { e.w |= me; } else { e.r |= me; }
+        }
         if (access == yv::Y_SPIN) {
             self->state = (writes_performed_ > self->last_writes) ? TState::Runnable : TState::Blocked;
             // the load that saw the lock / dirty bit happened after the previous yield returned: any store since then counts
@@ -232,8 +263,15 @@ public:
         } else if (access == yv::Y_SLEEP && !c.empty()) {
             // a sleeping (background) thread gives up the processor; it stays runnable: virtual time
             next = pick(c, self);
-        } else if (((preempt_cats >> cat) & 1U) != 0 && !c.empty() && want_preempt(self, c)) {
+        } else if (((preempt_cats >> cat) & 1U) != 0 && !c.empty() && want_preempt(self, c, conflict)) {
             next = pick(c, self);
+            ++preemptions;
+        } else if (conflict && conflict_bias && mode_ != 3 && ((preempt_cats >> cat) & 1U) != 0 && !c.empty() && bytes_.byte() < 64) {
+            next = nullptr;
+            for (auto* l : c) {
+                if (l == conflict_with) { next = l; }
+            }
+            if (next == nullptr) { next = pick(c, self); }
             ++preemptions;
         }
         if (next != self) {
@@ -405,6 +443,10 @@ private:
         int kind;
         const void* addr;
     };
+    struct Acc {
+        std::uint8_t r{0}, w{0}; // thread bit sets: who read / wrote this word in the current run
+    };
+    std::unordered_map<const void*, Acc> acc_;
     RingEnt ring_[64]{};
     std::size_t ring_n_{0};
 
@@ -465,7 +507,7 @@ private:
         d |= static_cast<std::uint64_t>(bytes_.byte()) << 8U;
         return d % 400;
     }
-    bool want_preempt(LThread* self, const std::vector<LThread*>& c) {
+    bool want_preempt(LThread* self, const std::vector<LThread*>& c, bool conflict) {
         switch (mode_) {
             case 0: { // dense: switch with probability thresh/256 at every eligible yield
                 std::uint8_t b = bytes_.byte();
@@ -480,7 +522,9 @@ private:
                 return false;
             }
             case 3: // explicit script
-                return script_pos_ < script.size() && steps >= script[script_pos_].first;
+                if (script_pos_ >= script.size()) { return false; }
+                if (script_pos_ >= script_conflict_from) { return conflict && conflicts_since_switch >= script[script_pos_].first; }
+                return steps >= script[script_pos_].first;
             default: { // PCT: run the highest priority; at change points the running thread drops to the lowest
                 for (auto& cp : change_points_) {
                     if (cp != 0 && steps == cp) {
@@ -499,8 +543,11 @@ private:
         if (c.empty()) { return nullptr; }
         if (mode_ == 3) {
             // scripted switch if one is due, otherwise the lowest thread id (forced switches: block / finish)
-            if (script_pos_ < script.size() && steps >= script[script_pos_].first) {
+            const bool due = script_pos_ < script.size() &&
+                             (script_pos_ >= script_conflict_from ? conflicts_since_switch >= script[script_pos_].first : steps >= script[script_pos_].first);
+            if (due) {
                 int want = script[script_pos_++].second;
+                conflicts_since_switch = 0;
                 for (auto* l : c) {
                     if (l->id == want) { return l; }
                 }
